@@ -5,7 +5,9 @@ from G2 problems of harness/gen.py restricted to the fragment the third-party `p
 the SURFACE FORMS the unified-planning writer never emits (multi-typed lists, :constants, nested / redundant
 and / or, (and) / (or) as constants, comparisons in either operand order, imply, several variables per
 quantifier, bare 0-ary function heads, explicit negative init literals, decimals, :action-costs, mixed letter
-case, ...), plus the .pddl pairs shipped under /repo that both readers accept.
+case, name reuse: a quantifier / forall effect binding a variable named like a parameter of its action, like an
+enclosing variable, like an object / type / fluent / action, ...), plus the .pddl pairs shipped under /repo that
+both readers accept.
 
 Real code: PDDLReader(force_up_pddl_reader=True) and PDDLReader(force_ai_planning_reader=True), parse_problem on
 files in the work directory, global Environment; both results projected with harness/upj.project and
@@ -135,20 +137,39 @@ def _free_refs(e, bound=frozenset()):
     return out
 
 
-def _eq_pairs(e):
-    """the pairs of parameters / variables compared by some `=` inside e (structure only)"""
+def _skeleton(e, refs):
+    """e with its parameter / variable references replaced by holes; refs collects them in syntactic order"""
+    if e["op"] in ("param", "var"):
+        refs.append((e["op"], e["name"]))
+        return "#"
+    return (e["op"], e["name"], repr(e["v"]), repr(e["vars"]), tuple(_skeleton(a, refs) for a in e["args"]))
+
+
+def _clash_pairs(e):
+    """the pairs of parameters / variables that must stay different for two operands of one `=` or of one arithmetic operator
+    inside e to stay different (structure only).  Identical operands are forms of their own: `(= x x)` is outside the common
+    fragment (the third-party parser collapses the operands), `(+ x x)` / `(* x x)` is the known disagreement
+    arith:repeated-operand, which has its dedicated slice."""
     out = set()
-    if e["op"] == "eq" and all(a["op"] in ("param", "var") for a in e["args"]):
-        out.add(frozenset((a["op"], a["name"]) for a in e["args"]))
+    if e["op"] in ("eq", "plus", "times", "minus", "div"):
+        ops = _flat(e, e["op"]) if e["op"] in ("plus", "times") else e["args"]
+        sks = []
+        for a in ops:
+            refs = []
+            sks.append((_skeleton(a, refs), refs))
+        for i in range(len(ops)):
+            for j in range(i + 1, len(ops)):
+                if sks[i][0] == sks[j][0]:
+                    out |= {frozenset((x, y)) for x, y in zip(sks[i][1], sks[j][1]) if x != y}
     for a in e["args"]:
-        out |= _eq_pairs(a)
+        out |= _clash_pairs(a)
     return out
 
 
-def _eff_eq_pairs(ef):
-    out = _eq_pairs(ef["v"]) | _eq_pairs(ef["c"])
+def _eff_clash_pairs(ef):
+    out = _clash_pairs(ef["v"]) | _clash_pairs(ef["c"])
     for x in ef["f"]["args"]:
-        out |= _eq_pairs(x)
+        out |= _clash_pairs(x)
     return out
 
 
@@ -274,12 +295,12 @@ class Printer:
         return ([("object", o["name"]) for o in P["objects"] if o["name"] not in self._used] + [("type", t["name"]) for t in P["types"]]
                 + [("fluent", f["name"]) for f in P["fluents"]] + [("action", a["name"]) for a in P["actions"]])
 
-    def bind(self, vs, refs, eqs=()):
+    def bind(self, vs, refs, clashes=()):
         """one quantifier binding the seed variables vs; refs: the parameters / outer variables its scope refers to.
         -> frame {seed name: (printed name, type name)}.  With probability `shadow` a variable is printed under a name
         that is already in use.  A name the scope refers to is only taken over by a variable of the same type (the text
         stays well-typed; it then means something else than the seed, which is irrelevant: the text is the input), and
-        never by a variable the scope compares with it (eqs: `(= ?x ?x)` is outside the third-party grammar's fragment)."""
+        never by a variable that must stay different from it (clashes: see _clash_pairs)."""
         r, s = self.r, self.s
         used = {}
         for k, n in refs:
@@ -300,7 +321,7 @@ class Printer:
                 k, n = r.choice(self.other_names())
                 cands.append((n, "scope:variable-named-like-" + k))
                 taken = {p for p, _ in frame.values()}
-                rivals = {self.resolve(k2, n2)[0] for pr in eqs if ("var", name) in pr for k2, n2 in pr if (k2, n2) != ("var", name)}
+                rivals = {self.resolve(k2, n2)[0] for pr in clashes if ("var", name) in pr for k2, n2 in pr if (k2, n2) != ("var", name)}
                 cands = [(n, ft) for n, ft in cands if n not in taken and n not in rivals and used.get(n, {tn}) == {tn}]
                 if cands:
                     pick = r.choice(cands)
@@ -513,7 +534,7 @@ class Printer:
             if len(vs) > 1:
                 self.f("quantifier:several-variables")
             self.f("op:" + op)
-            frame = self.bind(vs, _free_refs(body, frozenset(v["name"] for v in vs)), _eq_pairs(body))
+            frame = self.bind(vs, _free_refs(body, frozenset(v["name"] for v in vs)), _clash_pairs(body))
             self.scope.append(frame)
             try:
                 inner = self.pe(body)
@@ -562,7 +583,7 @@ class Printer:
         for ef in effs:
             key = (repr(ef["forall"]), repr(ef["c"]))
             refs[key] = refs.get(key, set()) | _eff_refs(ef)
-            eqs[key] = eqs.get(key, set()) | _eff_eq_pairs(ef)
+            eqs[key] = eqs.get(key, set()) | _eff_clash_pairs(ef)
         for ef in effs:
             key = (repr(ef["forall"]), repr(ef["c"]))
             hit = None
@@ -1411,8 +1432,8 @@ def run(ctx):
     ctx.cov["shipped_pairs_in_common_fragment"] = sorted(
         os.path.relpath(meta[c]["problem_pddl"], REPO) for c in todo if meta[c]["slice"] == "shipped")
     ctx.cov["rule"] = (
-        "PDDL texts printed by the harness's own printer from G2 seeds (classical, numeric, mixed-case, border-of-the-fragment and "
-        "non-dyadic-decimal slices) + the shipped .pddl pairs; one evaluation = one text given to both readers and classified by TLC "
+        "PDDL texts printed by the harness's own printer from G2 seeds (classical, numeric, name-reuse / scoping, mixed-case, "
+        "border-of-the-fragment and non-dyadic-decimal slices) + the shipped .pddl pairs; one evaluation = one text given to both readers and classified by TLC "
         "(PddlReaders); non-trivial = texts both readers accept, compared by Bisim on every state reachable within depth %d "
         "(shipped pairs: depth <= 1)." % D)
     ex = next((r for r in recs if r["cid"] in todo), recs[0])
@@ -1425,4 +1446,6 @@ def run(ctx):
         "texts the third-party based reader rejects are outside the common fragment (tallied with the reason), texts only the UP reader "
         "rejects are tallied as information",
         "identifiers of a text never differ only in letter case (PDDL would make them equal)",
+        "bound variables are projected into a name space of their own ('?' + name): a unified-planning Variable and a Parameter of the "
+        "same name are different objects, the specification's Eval has one environment for both",
     ]
